@@ -37,6 +37,25 @@ def gen(rng, tier):
         if rng.random() < 0.4:
             pos = rng.randrange(len(s)); bad = bytes([rng.choice([0x10, 0x19, 0x20, 0x2F, 0x3A, 0x40, 0x5B, 0x60, 0x7B, 0x80, 0xB0, 0xFF, 0x2B, 0x3D, 0x0A])])
             dec(s[:pos] + bad + s[pos + 1:], "invalid-char pos=%s" % ("first" if pos == 0 else ("last" if pos == len(s) - 1 else "mid")))
+    # numerals of values around powers of two (an accumulator of a fixed width overflows exactly there), in both cases, with leading zeros
+    def b36(v):
+        ds = "0123456789ABCDEFGHIJKLMNOPQRSTUVWXYZ"; o = ""
+        while v: o = ds[v % 36] + o; v //= 36
+        return (o or "0").encode()
+    for k in [8, 16, 24, 31, 32, 33, 40, 48, 56, 62, 63, 64, 65, 72, 96, 127, 128, 129, 256, 512]:
+        for dlt in (-2, -1, 0, 1, 2, 19, 35, 36):
+            v = 2 ** k + dlt; t_ = b36(v)
+            dec(t_, "pow2 k=%d" % k); dec(t_.lower(), "pow2 lower k=%d" % k)
+            if dlt in (0, 19): dec(b"00" + t_, "pow2 leading-zeros k=%d" % k)
+            enc(v.to_bytes((v.bit_length() + 7) // 8, "big"), "pow2-value k=%d" % k)
+    # runs of zero digits at every alignment (a loop that takes several digits per pass may skip an all-zero group)
+    for k in range(1, 15):
+        for pre in (b"1", b"Z", b"USER", b"7Q"):
+            for suf in (b"", b"1", b"0Z"):
+                dec(pre + b"0" * k + suf, "zero-run k=%d" % k)
+    for pw in range(1, 13):
+        v = 36 ** pw
+        dec(b36(v), "pow36 %d" % pw); dec(b36(v * 35 + 1), "pow36+1 %d" % pw); dec(b36(v - 1), "pow36-1 %d" % pw)
     # decode of encodings (round trip through the real encoder is covered by enc==model and dec==model on the same strings)
     # every API family once during static initialisation of the driver (before the library's own dynamic initialisers have run)
     cases.append(Case("staticinit", "static-initialisation battery", True, spec="staticinit"))
